@@ -35,3 +35,11 @@ Proof.
   split; [reflexivity|]. split; [reflexivity|]. split; [vm_compute; lia|].
   eexists. simpl. apply (s_steps_in [] (TLeaf Wait) _ _ (TLeaf Run) 1 0). apply s_acquire.
 Qed.
+
+(* a leaf that starts without taking a permit (the interrupt handlers before fix 303f9ce) breaks the bound: two sibling
+   handlers are open at once under k = 1 *)
+From HG Require Import SemaFree.
+Theorem C15_unlimited_leaf_refuted :
+  exists t f, stepsf (start (JPar [JLeaf; JLeaf]), 1) (t, f) /\ running t = 2 /\ 1 < running t.
+Proof. exact unlimited_leaves_break_the_bound. Qed.
+Print Assumptions C15_unlimited_leaf_refuted.
